@@ -476,6 +476,8 @@ def file_class(rel):
     parts = rel.split("/")
     if parts[0] == "nunavut" or rel.startswith("nunavut_support"):
         return "support"
+    if len(parts) == 1:
+        return "other"          # a file directly in the output directory that is not a support file
     if _RE_TYPEFILE.search(parts[-1]):
         return "datatype"
     return "namespace"
